@@ -33,7 +33,7 @@ type Chan struct {
 	// the channel's Extended(code) writer
 	Ext     []int  `json:"ext,omitempty"`
 	ExtCode uint32 `json:"ext_code,omitempty"`
-	Grants []int `json:"grants,omitempty"` // window increments the peer hands out, cycled
+	Grants  []int  `json:"grants,omitempty"` // window increments the peer hands out, cycled
 	// System B: what the peer sends: a list of (stream, size); stream 0 data, 1 stderr, >1 other extended code
 	Send     []Send `json:"send,omitempty"`
 	ReadSize int    `json:"read_size,omitempty"`
@@ -165,16 +165,16 @@ func content(ch int, stream uint32, off int) byte {
 
 // pchan is the peer's view of one channel.
 type pchan struct {
-	idx       int
-	peerID    uint32 // id the peer chose
-	localID   uint32 // id the local side chose (recipient id for peer -> local packets)
-	open      bool
+	idx     int
+	peerID  uint32 // id the peer chose
+	localID uint32 // id the local side chose (recipient id for peer -> local packets)
+	open    bool
 	// system A accounting
-	granted   uint64 // window handed to the local sender (initial + adjusts sent)
-	sent      uint64 // data bytes received from the local sender
-	recv      [3]int // bytes received per stream (0 data, 1 stderr, 2 further extended code)
-	grantIdx  int
-	empty     int // zero-length data packets received
+	granted  uint64 // window handed to the local sender (initial + adjusts sent)
+	sent     uint64 // data bytes received from the local sender
+	recv     [3]int // bytes received per stream (0 data, 1 stderr, 2 further extended code)
+	grantIdx int
+	empty    int // zero-length data packets received
 	// system B accounting
 	localWin  uint64 // window the local side advertised plus adjusts received
 	localMax  uint32
@@ -737,14 +737,62 @@ func shrink(scn any) []any {
 	}
 	for i, c := range s.Chans {
 		for _, f := range []func(*Chan) bool{
-			func(c *Chan) bool { if len(c.Data) > 0 { c.Data = c.Data[:len(c.Data)-1]; return true }; return false },
-			func(c *Chan) bool { if len(c.Stderr) > 0 { c.Stderr = c.Stderr[:len(c.Stderr)-1]; return true }; return false },
-			func(c *Chan) bool { if len(c.Ext) > 0 { c.Ext = c.Ext[:len(c.Ext)-1]; return true }; return false },
-			func(c *Chan) bool { if len(c.Send) > 1 { c.Send = c.Send[:len(c.Send)/2]; return true }; return false },
-			func(c *Chan) bool { if len(c.Send) > 1 { c.Send = c.Send[1:]; return true }; return false },
-			func(c *Chan) bool { if c.CloseMid { c.CloseMid = false; return true }; return false },
-			func(c *Chan) bool { if c.LazyRead { c.LazyRead = false; return true }; return false },
-			func(c *Chan) bool { if c.PeerEnds != "" { c.PeerEnds = ""; return true }; return false },
+			func(c *Chan) bool {
+				if len(c.Data) > 0 {
+					c.Data = c.Data[:len(c.Data)-1]
+					return true
+				}
+				return false
+			},
+			func(c *Chan) bool {
+				if len(c.Stderr) > 0 {
+					c.Stderr = c.Stderr[:len(c.Stderr)-1]
+					return true
+				}
+				return false
+			},
+			func(c *Chan) bool {
+				if len(c.Ext) > 0 {
+					c.Ext = c.Ext[:len(c.Ext)-1]
+					return true
+				}
+				return false
+			},
+			func(c *Chan) bool {
+				if len(c.Send) > 1 {
+					c.Send = c.Send[:len(c.Send)/2]
+					return true
+				}
+				return false
+			},
+			func(c *Chan) bool {
+				if len(c.Send) > 1 {
+					c.Send = c.Send[1:]
+					return true
+				}
+				return false
+			},
+			func(c *Chan) bool {
+				if c.CloseMid {
+					c.CloseMid = false
+					return true
+				}
+				return false
+			},
+			func(c *Chan) bool {
+				if c.LazyRead {
+					c.LazyRead = false
+					return true
+				}
+				return false
+			},
+			func(c *Chan) bool {
+				if c.PeerEnds != "" {
+					c.PeerEnds = ""
+					return true
+				}
+				return false
+			},
 		} {
 			cc := c
 			cc.Data = append([]int(nil), c.Data...)
